@@ -1,0 +1,220 @@
+//go:build verif
+
+package mp4
+
+// Property C07: well-formed Common Encryption output (sub-sample tables, auxiliary information, IV arithmetic).
+
+//@ spec rec ssTotal(s []SubSamplePattern, n int) int = ite(n <= 0, 0, ssTotal(s, n-1) + int(s[n-1].BytesOfClearData) + int(s[n-1].BytesOfProtectedData))
+//@ spec rec ssProt(s []SubSamplePattern, n int) int = ite(n <= 0, 0, ssProt(s, n-1) + int(s[n-1].BytesOfProtectedData))
+
+// ssBlocks: number of whole 16-byte cipher blocks, summed per entry. 16*ssBlocks == ssProt iff every entry is a multiple of 16.
+//@ spec rec ssBlocks(s []SubSamplePattern, n int) int = ite(n <= 0, 0, ssBlocks(s, n-1) + int(s[n-1].BytesOfProtectedData/16))
+
+// The three sum clauses of AppendProtectRange (ssTotal/ssProt/ssBlocks of the result) are ASSUMED (trustkind): they follow
+// from the element-wise clauses proved just above them (prefix unchanged, k entries (65535,0), last entry
+// (nrClear-65535k, nrProtected)) by induction over the slice, and the verifier has no induction (its frame axiom for
+// recursive specification functions covers single stores, not the array copy of append).
+//@ func AppendProtectRange
+//@   ensures len(result) >= len(ssps0) + 1
+//@   ensures[C07] forall i int :: 0 <= i && i < len(ssps0) ==> result[i].BytesOfClearData == old(ssps0[i].BytesOfClearData)
+//@   ensures[C07] forall i int :: 0 <= i && i < len(ssps0) ==> result[i].BytesOfProtectedData == old(ssps0[i].BytesOfProtectedData)
+//@   ensures[C07] forall i int :: len(ssps0) <= i && i < len(result)-1 ==> result[i].BytesOfClearData == 65535
+//@   ensures[C07] forall i int :: len(ssps0) <= i && i < len(result)-1 ==> result[i].BytesOfProtectedData == 0
+//@   ensures[C07] result[len(result)-1].BytesOfProtectedData == nrProtected
+//@   ensures[C07] uint64(nrClear0) == uint64(result[len(result)-1].BytesOfClearData) + 65535*uint64(len(result)-len(ssps0)-1)
+//@   ensures[C07] ssTotal(result, len(result)) == old(ssTotal(ssps0, len(ssps0))) + int(nrClear0) + int(nrProtected)
+//@   ensures[C07] ssProt(result, len(result)) == old(ssProt(ssps0, len(ssps0))) + int(nrProtected)
+//@   ensures[C07] ssBlocks(result, len(result)) == old(ssBlocks(ssps0, len(ssps0))) + int(nrProtected/16)
+//@   trustkind post@9:ssBlocks(result,len(result))==old(ssBlocks(ssps0,len(ssps0)))+int(nrProtec
+//@   trustkind post@7:ssTotal(result,len(result))==old(ssTotal(ssps0,len(ssps0)))+int(nrClear0)
+//@   trustkind post@8:ssProt(result,len(result))==old(ssProt(ssps0,len(ssps0)))+int(nrProtected)
+//@   loop 1 invariant len(ssps) >= len(ssps0)
+//@   loop 1 invariant forall i int :: 0 <= i && i < len(ssps0) ==> ssps[i].BytesOfClearData == old(ssps0[i].BytesOfClearData)
+//@   loop 1 invariant forall i int :: 0 <= i && i < len(ssps0) ==> ssps[i].BytesOfProtectedData == old(ssps0[i].BytesOfProtectedData)
+//@   loop 1 invariant forall i int :: len(ssps0) <= i && i < len(ssps) ==> ssps[i].BytesOfClearData == 65535
+//@   loop 1 invariant forall i int :: len(ssps0) <= i && i < len(ssps) ==> ssps[i].BytesOfProtectedData == 0
+//@   loop 1 invariant uint64(nrClear0) == uint64(nrClear) + 65535*uint64(len(ssps)-len(ssps0))
+
+// ---------------------------------------------------------------- protect ranges of one sample (crypto.go:26, :82)
+// naluWalk(sample, pos): where the walk over 4-byte-length-prefixed NAL units that starts at pos ends (all arithmetic in
+// 64 bits, no wrap-around); -1 if a length field points beyond the sample. A sample is a well-formed NALU sequence iff
+// naluWalk(sample, 0) == len(sample) (ISO/IEC 14496-15: a sample is a sequence of length-prefixed NAL units, nothing else).
+//@ spec rec naluWalk(sample []byte, pos int) int = ite(pos >= len(sample)-4, pos, ite(pos+4+int(be32(sample, pos)) > len(sample), -1, naluWalk(sample, pos+4+int(be32(sample, pos)))))
+//@ pred naluSeqOK(sample []byte) = naluWalk(sample, 0) == len(sample)
+
+// cencProtLen: protected bytes of a video NAL unit of payload length nl under cenc (multiple of 16, NALU end aligned,
+// at least 96 bytes incl. the length field left clear: the rule of the reference packager the library follows).
+//@ spec cencProtLen(nl uint32) uint32 = ite(uint64(nl)+4 >= 112, (nl+4-96) & 0xfffffff0, uint32(0))
+//@ spec rec avcCencProt(sample []byte, pos int) int = ite(pos >= len(sample)-4 || pos+4+int(be32(sample, pos)) > len(sample), 0, ite(sample[pos+4]&0x1f <= 5, int(cencProtLen(be32(sample, pos))), 0) + avcCencProt(sample, pos+4+int(be32(sample, pos))))
+
+// FINDINGS (clauses taken from the property statement that FAIL on the real code, kept as plain comments; tests in
+// verif_c07_findings_test.go):
+//   C07-F2  ensures[C07] result1 == nil ==> ssTotal(result0, len(result0)) == len(sample)      sat: a trailing zero-length NAL
+//           unit or 1-4 stray bytes are accepted and not covered; a 4-byte sample gets no sub-samples at all.
+//   C07-F3  safety slice@sample[pos:pos+naluLength]  sat: pos+naluLength wraps around in 32 bits (input ff ff ff fe 01 00 00): panic.
+//   C07-F4  dec:1 (termination)  sat: length field ff ff ff fc on a non-video NAL unit moves pos back to 0: endless loop.
+//   C07-F5  avcCencProt with the standard's VCL types 1..5: sat for nal_unit_type 0 (the code treats types 0..5 as video);
+//           the active specification below follows the code (type <= 5).
+// The verified clauses are conditional on naluSeqOK(sample), which excludes the inputs of F2-F4.
+//@ func GetAVCProtectRanges
+//@   requires len(sample) < 1<<32
+//@   ensures[C07] result1 == nil && naluSeqOK(sample) ==> ssTotal(result0, len(result0)) == len(sample)
+//@   ensures[C07] result1 == nil && naluSeqOK(sample) && scheme == "cenc" ==> ssProt(result0, len(result0)) == avcCencProt(sample, 0)
+//@   ensures[C07] result1 == nil && scheme == "cenc" ==> 16*ssBlocks(result0, len(result0)) == ssProt(result0, len(result0))
+//@   loop 1 invariant length == len(sample) && length >= 4
+//@   loop 1 invariant naluSeqOK(sample) ==> naluWalk(sample, int(pos)) == len(sample)
+//@   loop 1 invariant naluSeqOK(sample) && int(pos) < len(sample)-4 ==> int(pos)+4+int(be32(sample, int(pos))) <= len(sample)
+//@   loop 1 invariant naluSeqOK(sample) ==> clearEnd == pos && clearStart <= pos && int(pos) <= len(sample)
+//@   loop 1 invariant naluSeqOK(sample) ==> ssTotal(ssps, len(ssps)) == int(clearStart)
+//@   loop 1 invariant naluSeqOK(sample) && scheme == "cenc" ==> ssProt(ssps, len(ssps)) + avcCencProt(sample, int(pos)) == avcCencProt(sample, 0)
+//@   loop 1 invariant scheme == "cenc" ==> 16*ssBlocks(ssps, len(ssps)) == ssProt(ssps, len(ssps))
+
+//@ spec rec hevcCencProt(sample []byte, pos int) int = ite(pos >= len(sample)-4 || pos+4+int(be32(sample, pos)) > len(sample), 0, ite((sample[pos+4]>>1)&0x3f <= 31, int(cencProtLen(be32(sample, pos))), 0) + hevcCencProt(sample, pos+4+int(be32(sample, pos))))
+
+//@ func GetHEVCProtectRanges
+//@   requires len(sample) < 1<<32
+//@   ensures[C07] result1 == nil && naluSeqOK(sample) ==> ssTotal(result0, len(result0)) == len(sample)
+//@   ensures[C07] result1 == nil && naluSeqOK(sample) && scheme == "cenc" ==> ssProt(result0, len(result0)) == hevcCencProt(sample, 0)
+//@   ensures[C07] result1 == nil && scheme == "cenc" ==> 16*ssBlocks(result0, len(result0)) == ssProt(result0, len(result0))
+//@   loop 1 invariant length == len(sample) && length >= 4
+//@   loop 1 invariant naluSeqOK(sample) ==> naluWalk(sample, int(pos)) == len(sample)
+//@   loop 1 invariant naluSeqOK(sample) && int(pos) < len(sample)-4 ==> int(pos)+4+int(be32(sample, int(pos))) <= len(sample)
+//@   loop 1 invariant naluSeqOK(sample) ==> clearEnd == pos && clearStart <= pos && int(pos) <= len(sample)
+//@   loop 1 invariant naluSeqOK(sample) ==> ssTotal(ssps, len(ssps)) == int(clearStart)
+//@   loop 1 invariant naluSeqOK(sample) && scheme == "cenc" ==> ssProt(ssps, len(ssps)) + hevcCencProt(sample, int(pos)) == hevcCencProt(sample, 0)
+//@   loop 1 invariant scheme == "cenc" ==> 16*ssBlocks(ssps, len(ssps)) == ssProt(ssps, len(ssps))
+
+// ---------------------------------------------------------------- IV arithmetic (crypto.go:256-282)
+// A 16-byte IV is the 128-bit big-endian counter block of AES-CTR: ivHi:ivLo. Advancing by n cipher blocks is addition
+// modulo 2^128.
+//@ spec ivLo(iv []byte) uint64 = be64(iv, 8)
+//@ spec ivHi(iv []byte) uint64 = be64(iv, 0)
+
+// ivStep: state of the byte-wise carry propagation after the k least significant bytes have been rewritten
+// (l, h: current low/high halves; l0, h0: halves at entry; n: steps to add; r: carry still to be added at byte k).
+//@ pred ivStep(l uint64, l0 uint64, h uint64, h0 uint64, n uint64, r uint64, k int) = (k <= 8 ==> h == h0 && l & ^uint64(mask(8*k)) == l0 & ^uint64(mask(8*k)) && (l & uint64(mask(8*k))) + (r << uint(8*k)) == (l0 & uint64(mask(8*k))) + n && (k <= 7 ==> r <= (n >> uint(8*k)) + 1) && (k == 8 ==> r == ite(l < l0, uint64(1), uint64(0)))) && (k >= 8 ==> l == l0 + n && r <= 1 && h & ^uint64(mask(8*(k-8))) == h0 & ^uint64(mask(8*(k-8))) && (h & uint64(mask(8*(k-8)))) + (r << uint(8*(k-8))) == (h0 & uint64(mask(8*(k-8)))) + ite(l < l0, uint64(1), uint64(0)))
+
+//@ func incrementIVInPlace
+//@   requires len(iv) == 16 && 0 <= nrSteps && nrSteps < 1<<62
+//@   ensures[C07] ivLo(iv) == old(ivLo(iv)) + uint64(nrSteps)
+//@   ensures[C07] ivHi(iv) == old(ivHi(iv)) + ite(ivLo(iv) < old(ivLo(iv)), uint64(1), uint64(0))
+//@   assigns iv[:]
+//@   loop 1 invariant len(iv) == 16 && -1 <= i && i <= 15 && rest >= 0
+//@   loop 1 invariant ivStep(ivLo(iv), old(ivLo(iv)), ivHi(iv), old(ivHi(iv)), uint64(nrSteps), uint64(rest), 15-i)
+
+// cencBlocksUsed: AES-CTR counter blocks consumed by CryptSampleCenc for one sample (one continuous key stream over the
+// protected ranges, or over the whole sample if there are no sub-samples).
+//@ spec cencBlocksUsed(ssp []SubSamplePattern, sampleLen int) int = ite(len(ssp) == 0, (sampleLen+15)/16, (ssProt(ssp, len(ssp))+15)/16)
+
+//@ func incrementIV
+//@   requires len(inIV) == 16 && 0 <= sampleLen && sampleLen < 1<<48 && len(subsamplePatterns) < 1<<30
+//@   ensures len(result) == 16 && fresh(result)
+//@   ensures[C07] 16*ssBlocks(subsamplePatterns, len(subsamplePatterns)) == ssProt(subsamplePatterns, len(subsamplePatterns)) ==> ivLo(result) == ivLo(inIV) + uint64(cencBlocksUsed(subsamplePatterns, sampleLen))
+//@   ensures[C07] ivHi(result) == ivHi(inIV) + ite(ivLo(result) < ivLo(inIV), uint64(1), uint64(0))
+//@   assigns nothing
+//@   loop 1 invariant nrEncBlocks == ssBlocks(subsamplePatterns, idx(1)) && 0 <= nrEncBlocks && nrEncBlocks <= idx(1) * (1<<28) && idx(1) <= len(subsamplePatterns)
+
+// ---------------------------------------------------------------- auxiliary information sizes (saiz.go:68)
+// auxInfoSize: size in bytes of one sample's CencSampleAuxiliaryDataFormat entry as written into senc
+// (ISO/IEC 23001-7, 7.1): the IV, then, if sub-sample encryption is used, a 16-bit count and 6 bytes per sub-sample.
+//@ spec auxInfoSize(ivLen int, nrSub int) int = ivLen + ite(nrSub > 0, 2 + 6*nrSub, 0)
+
+//@ func (*SaizBox).AddSampleInfo
+//@   requires len(iv) <= 16 && len(subsamplePatterns) < 1<<32
+//@   requires len(subsamplePatterns) > 0 ==> b.DefaultSampleInfoSize == 0 && int(b.SampleCount) == len(b.SampleInfo)
+//@   requires len(subsamplePatterns) == 0 && len(iv) > 0 ==> b.DefaultSampleInfoSize == 0 || int(b.DefaultSampleInfoSize) == len(iv)
+// FINDING C07-F1: without the next precondition the first ensures fails (sat): the entry is truncated to 8 bits
+// (byte(size)) when a sample has 40 or more sub-samples with a 16-byte IV; the library neither rejects nor splits.
+//@   requires auxInfoSize(len(iv), len(subsamplePatterns)) <= 255
+//@   ensures[C07] len(subsamplePatterns) > 0 ==> len(b.SampleInfo) == old(len(b.SampleInfo)) + 1 && b.SampleCount == old(b.SampleCount) + 1 && int(b.SampleInfo[len(b.SampleInfo)-1]) == auxInfoSize(len(iv), len(subsamplePatterns))
+//@   ensures[C07] len(subsamplePatterns) > 0 ==> b.DefaultSampleInfoSize == 0 && (forall i int :: 0 <= i && i < old(len(b.SampleInfo)) ==> b.SampleInfo[i] == old(b.SampleInfo[i]))
+//@   ensures[C07] len(subsamplePatterns) == 0 && len(iv) > 0 ==> int(b.DefaultSampleInfoSize) == len(iv) && b.SampleCount == old(b.SampleCount) + 1 && len(b.SampleInfo) == old(len(b.SampleInfo))
+//@   ensures[C07] len(subsamplePatterns) == 0 && len(iv) == 0 ==> b.DefaultSampleInfoSize == old(b.DefaultSampleInfoSize) && b.SampleCount == old(b.SampleCount) && len(b.SampleInfo) == old(len(b.SampleInfo))
+
+// ---------------------------------------------------------------- applying the cipher to the protected ranges (crypto.go:153-253)
+// The standard-library cipher objects (crypto/aes, crypto/cipher) have no model in the verifier: a call to them havocs all
+// byte arrays. Nothing about byte contents is therefore stated here; what is proved is that, for a sub-sample table whose
+// partial sums stay inside the sample, every range handed to the cipher is sample[ssTotal(j)+clear_j : ssTotal(j+1)] and lies
+// inside the sample (no panic, cursor == partial sum).
+//@ pred ssInside(s []SubSamplePattern, n int) = forall j int :: 0 <= j && j < len(s) ==> 0 <= ssTotal(s, j) && ssTotal(s, j) + int(s[j].BytesOfClearData) + int(s[j].BytesOfProtectedData) <= n
+
+//@ func CryptSampleCenc
+//@   requires len(sample) < 1<<32 && ssInside(subSamplePatterns, len(sample))
+//@   trustkind nil@stream.XORKeyStream(sample,sample) nil@stream.XORKeyStream(sample[pos:pos+nrEnc],sample[pos:pos+nrEnc])
+//@   loop 1 invariant 0 <= j && j <= len(subSamplePatterns) && int(pos) == ssTotal(subSamplePatterns, j)
+
+// cbcs pattern (crypto.go:222): with the 1:9 pattern InitProtect configures for video (16 and 144 bytes) every block handed to
+// the CBC cipher starts at a multiple of 160 bytes inside the protected range and is a whole 16-byte block inside the range;
+// with skip 0 (audio) the cipher gets the whole-block prefix data[:len&^15].
+//@ func cbcsCrypt
+//@   requires 0 <= nrInCryptBlock && nrInCryptBlock <= 4080 && 0 <= nrInSkipBlock && nrInSkipBlock <= 4080
+//@   trustkind nil@cph.CryptBlocks(data[pos:pos+nrInCryptBlock],data[pos:pos+nrInCryptBl nil@cph.CryptBlocks(data[:nrToCrypt],data[:nrToCrypt])
+//@   loop 1 invariant 0 <= pos && pos <= size && size == len(data) && nrInSkipBlock > 0
+//@   loop 1 invariant nrInCryptBlock == 16 && nrInSkipBlock == 144 ==> pos % 160 == 0
+//@   loop 1 decreases size - pos
+
+//@ func cryptSampleCbcs
+//@   requires tenc != nil && len(sample) < 1<<32 && ssInside(subSamplePatterns, len(sample))
+//@   loop 1 invariant 0 <= j && j <= len(subSamplePatterns) && int(pos) == ssTotal(subSamplePatterns, j)
+
+//@ func EncryptSampleCbcs
+//@   requires tenc != nil && len(sample) < 1<<32 && ssInside(subSamplePatterns, len(sample))
+//@ func DecryptSampleCbcs
+//@   requires tenc != nil && len(sample) < 1<<32 && ssInside(subSamplePatterns, len(sample))
+
+// ---------------------------------------------------------------- saio offset (crypto.go:518-536)
+// Layout arithmetic of the encoded moof (8-byte header, children in order, each Size() bytes; same for traf; senc is a
+// full box with a 32-bit sample count, so its first auxiliary-information entry is 16 bytes after its start).
+// sencOff: offset (relative to the start of the moof) of the first entry of the last senc child among the first n children
+// of a traf whose first child starts at base; 0 if there is none.
+//@ spec rec sencOff(tcs []Box, n int, base uint64) uint64 = ite(n <= 0, uint64(0), ite(tcs[n-1].Type() == "senc", base + sizeSum(tcs, n-1) + 16, sencOff(tcs, n-1, base)))
+//@ spec rec noTraf(cs []Box, n int) bool = n <= 0 || (noTraf(cs, n-1) && cs[n-1].Type() != "traf")
+
+//@ func EncryptFragment
+//@   loop 2 invariant offset == 8 + sizeSum(moof.Children, idx(2)) && noTraf(moof.Children, idx(2)) && sencDataOffset == 0
+//@   loop 3 invariant noTraf(moof.Children, idx(2)) && moof.Children[idx(2)].Type() == "traf" && traf == moof.Children[idx(2)].(*TrafBox)
+//@   loop 3 invariant offset == 8 + sizeSum(moof.Children, idx(2)) + 8 + sizeSum(traf.Children, idx(3))
+//@   loop 3 invariant sencDataOffset == sencOff(traf.Children, idx(3), 8 + sizeSum(moof.Children, idx(2)) + 8)
+
+// ---------------------------------------------------------------- senc entries (senc.go:66, :316)
+// sencEntries: bytes of the first n per-sample entries as EncodeSWNoHdr writes them: the IV (perSampleIVSize bytes) and,
+// if the box uses sub-sample encryption, a 16-bit count and 6 bytes per sub-sample. One entry is auxInfoSize(iv, n) bytes,
+// the value AddSampleInfo records in saiz, provided the flag is set iff the sample has sub-samples.
+//@ spec rec sencEntries(s *SencBox, n int) uint64 = ite(n <= 0, uint64(0), sencEntries(s, n-1) + uint64(s.perSampleIVSize) + ite(s.Flags&2 != 0, 2 + 6*uint64(len(s.SubSamples[n-1])), uint64(0)))
+
+//@ func (*SencBox).calcSize
+//@   requires s.Flags&2 != 0 ==> int(s.SampleCount) <= len(s.SubSamples)
+//@   ensures[C07] result == 16 + sencEntries(s, int(s.SampleCount))
+//@   assigns nothing
+//@   loop 1 invariant i <= s.SampleCount && totalSize == 16 + sencEntries(s, int(i))
+
+//@ func (*SencBox).AddSample
+//@   requires len(sample.IV) <= 255
+//@   ensures[C07] result == nil ==> s.SampleCount == old(s.SampleCount) + 1
+//@   ensures[C07] result == nil && len(sample.IV) > 0 ==> int(s.perSampleIVSize) == len(sample.IV) && len(s.IVs) == old(len(s.IVs)) + 1
+//@   ensures[C07] result == nil && len(sample.IV) > 0 ==> len(s.IVs[len(s.IVs)-1]) == len(sample.IV)
+//@   ensures[C07] result == nil && len(sample.IV) == 0 ==> s.perSampleIVSize == old(s.perSampleIVSize) && len(s.IVs) == old(len(s.IVs))
+//@   ensures[C07] result == nil && len(sample.SubSamples) > 0 ==> s.Flags&2 != 0 && len(s.SubSamples) == old(len(s.SubSamples)) + 1
+//@   ensures[C07] result == nil && len(sample.SubSamples) > 0 ==> len(s.SubSamples[len(s.SubSamples)-1]) == len(sample.SubSamples)
+//@   ensures[C07] result == nil && len(sample.SubSamples) == 0 ==> s.Flags == old(s.Flags) && len(s.SubSamples) == old(len(s.SubSamples))
+//@   ensures[C07] result != nil ==> s.SampleCount == old(s.SampleCount) && len(s.IVs) == old(len(s.IVs)) && len(s.SubSamples) == old(len(s.SubSamples))
+
+// NOT FINISHED (solver timeouts on inv-pres:1 under machine load, see report): contract kept as plain comment.
+// sencWritable: the parsed/constructed form EncodeSWNoHdr walks: one IV of perSampleIVSize bytes per sample if IVs are
+// used, one sub-sample list per sample if the sub-sample flag is set.
+// pred sencWritable(s *SencBox) = s != nil && !s.readButNotParsed && s.SampleCount < 1<<31 && (s.perSampleIVSize > 0 ==> int(s.SampleCount) <= len(s.IVs) && (forall i int :: 0 <= i && i < int(s.SampleCount) ==> len(s.IVs[i]) == int(s.perSampleIVSize))) && (s.Flags&2 != 0 ==> int(s.SampleCount) <= len(s.SubSamples) && (forall i int :: 0 <= i && i < int(s.SampleCount) ==> len(s.SubSamples[i]) < 65536))
+
+// func (*SencBox).EncodeSWNoHdr
+//   requires swOKi(sw) && sencWritable(s)
+//   ensures swOKi(sw)
+//   ensures[C07] result == nil ==> adv(sw, 8 + int(sencEntries(s, int(s.SampleCount))))
+//   loop 1 invariant 0 <= i && i <= int(s.SampleCount) && swOKi(sw) && adv(sw, 8 + int(sencEntries(s, i)))
+//   loop 1 invariant sencEntries(s, i+1) == sencEntries(s, i) + uint64(s.perSampleIVSize) + ite(s.Flags&2 != 0, 2 + 6*uint64(len(s.SubSamples[i])), uint64(0))
+//   loop 2 invariant 0 <= i && i < int(s.SampleCount) && swOKi(sw) && idx(2) <= len(s.SubSamples[i]) && adv(sw, 8 + int(sencEntries(s, i)) + int(s.perSampleIVSize) + 2 + 6*idx(2))
+
+// NOT FINISHED (sat: callees without frame contracts havoc the TencBox/InitProtectData cells; see report): kept as plain comment.
+// ---------------------------------------------------------------- protection parameters written by InitProtect (crypto.go:293)
+// func InitProtect
+//   ensures[C07] result1 == nil ==> result0 != nil && result0.Tenc != nil && result0.Tenc.DefaultIsProtected == 1
+//   ensures[C07] result1 == nil && scheme == "cenc" ==> result0.Tenc.DefaultPerSampleIVSize == 16 && result0.Tenc.DefaultCryptByteBlock == 0 && result0.Tenc.DefaultSkipByteBlock == 0
+//   ensures[C07] result1 == nil && scheme == "cbcs" ==> result0.Tenc.DefaultPerSampleIVSize == 0 && ((result0.Tenc.DefaultCryptByteBlock == 1 && result0.Tenc.DefaultSkipByteBlock == 9) || (result0.Tenc.DefaultCryptByteBlock == 0 && result0.Tenc.DefaultSkipByteBlock == 0))
